@@ -134,7 +134,16 @@ def supportedMode (s : String) : Option Collision :=
     | _ => none
   else none
 
-def splitComma (s : String) : List String := s.splitOn ","
+/-- `strings.Split(s, ",")` on character lists (structural, so that the kernel can evaluate it) -/
+def splitCommaL : List Char → List (List Char)
+  | [] => [[]]
+  | c :: r =>
+    if c = ',' then [] :: splitCommaL r
+    else match splitCommaL r with
+      | h :: t => (c :: h) :: t
+      | [] => [[c]]
+
+def splitComma (s : String) : List String := (splitCommaL s.toList).map String.ofList
 
 /-- one entry of a `keys.map` table: `"note"` or `"note,offset"`, note by number or by name -/
 def convKey (v : String) : Outcome Key :=
